@@ -201,7 +201,8 @@ class Terminal:
 def horizon(sub):
     nchunks = sum((n + CHUNK - 1) // CHUNK + 1 for _, n in sub["app"])
     h = sub["init"] + 4
-    h += sum(g for g, _ in sub["app"]) + nchunks * (K + 3)
+    h += sum(g for g, _ in sub["app"]) + \
+        nchunks * (max([K] + list(sub["lat"])) + 3)
     h += sum(g + 3 for g, _ in sub["rx"])
     return 2 * h + 10
 
@@ -495,6 +496,15 @@ def cases(ctx):
         rxs = [(), rx_busy] if not q else [((), rx_busy)[n % 2]]
         for rx in rxs:
             add("T", app, lat, rx, inits[(n * 5 + 3) % len(inits)])
+    # S: a slow terminal: one accept takes tens of cycles (a full buffer,
+    # a slow line); the other latencies stay small
+    slow = [(30, 0, 0), (0, 40, 1), (1, 0, 64), (130, 0, 0)]
+    for n, lat in enumerate(slow if q else slow + [(26, 26, 26),
+                                                   (0, 300, 0)]):
+        for app in (((0, 1),), ((0, 45),), ((0, 23), (2, 22), (0, 1)),
+                    ((1, 45), (0, 45))):
+            for rx in ((), rx_busy):
+                add("S", app, lat, rx, inits[(n * 7 + 2) % len(inits)])
     # R: receive direction exhaustive
     rxs = scripts(3, range(K + 1), RXLENGTHS)
     apps = [(), ((0, 45),), ((2, 22), (0, 22), (3, 1)), ((0, 1), (1, 23))]
@@ -658,7 +668,7 @@ def run(ctx):
         placements_of_two_devices=["t0c1+t0c2", "t0c2+t0c1", "t0c1+t1c1",
                                    "t0c2+t1c2"],
         abandoned_after_cycles=[1, 6 if ctx.quick else 9])
-    res.cov["bound_completed"] = "all scripts of families T, R, X, D, H"
+    res.cov["bound_completed"] = "all scripts of families T, S, R, X, D, H"
     for k in ("two_devices_transmitting_at_once",
               "one_device_several_chunks_other_idle",
               "abandoned_with_unsent_bytes"):
